@@ -3,7 +3,8 @@
    Proofs/BuildSemLemmas.v (the built routine computes the reference semantics). *)
 From Coq Require Import List Arith Bool.
 Import ListNotations.
-Require Import TL.Model.Core TL.Model.Build TL.Proofs.CoreMono TL.Proofs.BuildLemmas TL.Proofs.BuildSemLemmas.
+Require Import TL.Model.Core TL.Model.Build TL.Proofs.CoreMono TL.Proofs.BuildLemmas TL.Proofs.BuildSemLemmas
+  TL.Proofs.C05History.
 
 (* For every class environment E, both directions (dir = true: unmarshal), every annotation T and
    every node order pre ++ [root] that graph.static_order may return for T -- any order in which the
@@ -49,6 +50,42 @@ Theorem C05_marshal :
       exists m, forall m', m' >= m -> mar rt E m' T x = api_call rt E orders false fuel T x.
 Proof. intros rt E noop_leaf orders Ho Hn T fuel x Hd. exact (api_m_sound rt E noop_leaf orders Ho Hn T fuel x Hd). Qed.
 
+
+(* Call histories (round 3).  api.unmarshaller / api.marshaller cache the routine they build for an annotation, so
+   one routine converts a whole history of inputs xs, one call after the other (run_history = the built routine run
+   on each input in order).  Every terminal result of the history is the composite rebuilt from the members of ITS
+   OWN input, each converted by its own type's rules -- whatever the same routine converted earlier or later, and
+   however the inputs of the history compare with each other (two inputs that are == in Python are two values here).
+   The model's routines are terms without memory; that the implementation's are too is what the history stream of
+   the tie checks (harness/c05_strata.py). *)
+Theorem C05_unmarshal_history :
+  forall (rt : runtime) (E : env) (noop_leaf : nat -> bool) (orders : ty -> option (list node)),
+    orders_contract E true noop_leaf orders ->
+    (forall s x, noop_leaf s = true -> leaf_u rt s x = Ok x) ->
+    forall (T : ty) (r : routine), build_root E orders true T = Ok r ->
+    forall (fuel : nat) (xs : list pv),
+      Forall2 (fun x res => done res = true -> exists m, forall m', m' >= m -> unm rt E m' T x = res)
+              xs (run_history rt E orders true fuel r xs).
+Proof. intros rt E noop_leaf orders Ho Hn T r Hb fuel xs. exact (history_u_sound rt E noop_leaf orders Ho Hn T r Hb fuel xs). Qed.
+
+Theorem C05_marshal_history :
+  forall (rt : runtime) (E : env) (noop_leaf : nat -> bool) (orders : ty -> option (list node)),
+    orders_contract E false noop_leaf orders ->
+    (forall s x, noop_leaf s = true -> leaf_m rt s x = Ok x) ->
+    forall (T : ty) (r : routine), build_root E orders false T = Ok r ->
+    forall (fuel : nat) (xs : list pv),
+      Forall2 (fun x res => done res = true -> exists m, forall m', m' >= m -> mar rt E m' T x = res)
+              xs (run_history rt E orders false fuel r xs).
+Proof. intros rt E noop_leaf orders Ho Hn T r Hb fuel xs. exact (history_m_sound rt E noop_leaf orders Ho Hn T r Hb fuel xs). Qed.
+
+(* the result for an input does not depend on its position in the history or on the other inputs of the history *)
+Theorem C05_history_position_independent :
+  forall (rt : runtime) (E : env) (orders : ty -> option (list node)) (dir : bool) (fuel : nat) (r : routine)
+         (xs ys : list pv) (i j : nat) (x : pv),
+    nth_error xs i = Some x -> nth_error ys j = Some x ->
+    nth_error (run_history rt E orders dir fuel r xs) i = nth_error (run_history rt E orders dir fuel r ys) j.
+Proof. exact history_position_independent. Qed.
+
 (* non-vacuity: a recursive class  class N0: kids: list[N0]; val: Optional[int]
    with the order observed on the implementation for root list[N0] *)
 Definition exE : env := fun n => match n with
@@ -71,6 +108,28 @@ Example C05_hyps_satisfiable :
                                (1, RUnion true [RNone; RLeaf 0])])).
 Proof. vm_compute. repeat split. Qed.
 
+(* non-vacuity of the history theorems: the routine above, built once, on a history of three inputs two of which are
+   distinct atoms (3 and 4) that the toy runtime declares == (atom_eq): each keeps its own conversion *)
+Definition exRt : runtime :=
+  {| leaf_u := fun s x => match x with PAtom a => Ok (PAtom (10 + a)) | _ => Raise EType end;
+     leaf_m := fun s x => Ok x; none_u := fun x => match x with PAtom 0 => Ok x | _ => Raise EValue end;
+     load_scalar := fun x => Ok x; values_scalar := fun _ => Raise EType; items_scalar := fun _ => Raise EType;
+     pairlike_scalar := fun _ => false; index := fun i => PAtom (100 + i); unhashable_class := fun _ => false;
+     atom_eq := fun a b => (Nat.eqb a 3 && Nat.eqb b 4) || (Nat.eqb a 4 && Nat.eqb b 3);
+     none := PAtom 0; suppressed := fun _ => true |}.
+Definition exNode (v : nat) : pv := PDict KDict [(PKey 0, PSeq KList []); (PKey 1, PAtom v)].
+Example C05_history_example :
+  exists r, build_root exE (fun _ => Some (exOrder ++ [exRoot])) true (TSeq KList (TName 0)) = Ok r /\
+    run_history exRt exE (fun _ => Some (exOrder ++ [exRoot])) true 20 r
+      [PSeq KList [exNode 3]; PSeq KList [exNode 4]; PSeq KList [exNode 3; exNode 4]]
+    = [Ok (PSeq KList [PObj 0 [(0, PSeq KList []); (1, PAtom 13)]]);
+       Ok (PSeq KList [PObj 0 [(0, PSeq KList []); (1, PAtom 14)]]);
+       Ok (PSeq KList [PObj 0 [(0, PSeq KList []); (1, PAtom 13)]; PObj 0 [(0, PSeq KList []); (1, PAtom 14)]])].
+Proof. eexists. split; [vm_compute; reflexivity | vm_compute; reflexivity]. Qed.
+
 Print Assumptions C05_build_routes.
 Print Assumptions C05_unmarshal.
 Print Assumptions C05_marshal.
+Print Assumptions C05_unmarshal_history.
+Print Assumptions C05_marshal_history.
+Print Assumptions C05_history_position_independent.
